@@ -21,6 +21,7 @@
    specification's view (every Initialize consults [sequence] of ALL loaders configured so far; per
    path the last supplier among all documents merged so far wins). *)
 From Coq Require Import List String ZArith Bool Arith.
+From IocVerif Require Import Model.Strconv.   (* before ConfigMerge: its is_map / ... are the ones meant below *)
 From IocVerif Require Import Model.Sorter Model.ConfigMerge.
 Import ListNotations.
 Local Open Scope list_scope.
@@ -29,7 +30,7 @@ Inductive oclass := OOk | OErr | OPanic.
 
 Record case := mkCase {
   cid : nat;
-  cosargs : list arg;                       (* "--app.config=..." arguments in os.Args *)
+  cosargs : list bytes;                     (* os.Args[1:] as the process received them ("--app.config=K=V" strings) *)
   cops : list copt;                         (* options passed to Run, in order *)
   cout : oclass;                            (* observed outcome of Run *)
   cgets : list (path * option ctree);       (* observed App.Get(p); None = nil *)
@@ -92,7 +93,7 @@ Definition user_lids (used : list loader) : list nat := map lid (filter is_user 
 Definition log_of (seq : list loader) : list nat :=
   let '(_, _, used) := consult seq in user_lids used.
 
-Definition os_loader (c : case) : loader := mkLoader 0 (LArgs (cosargs c)).
+Definition os_loader (c : case) : loader := mkLoader 0 (LArgv (cosargs c)).
 Definition loaders_of (c : case) : list loader := configured Repaired (os_loader c) (cops c).
 
 (* ---- model vs implementation ----------------------------------------------------------------- *)
@@ -118,8 +119,17 @@ Definition check_case (c : case) : bool :=
 
 (* documents of a sequence as the SPECIFICATION sees them; None when some loader cannot deliver *)
 Definition unreadable (l : loader) : bool := match lk l with LFile None => true | _ => false end.
+(* the scalar-then-dotted key clash inside one ArgsLoader (go-kid/properties panics); a panic of strconv2.ParseAny on
+   a value text is NOT this shape *)
 Definition args_panics (l : loader) : bool :=
-  match lk l with LArgs a => match args_load a with LoadPanic => true | _ => false end | _ => false end.
+  match lk l with
+  | LArgs a => match args_load a with LoadPanic => true | _ => false end
+  | LArgv a => match argv_typed a with
+               | Ok args => match args_load args with LoadPanic => true | _ => false end
+               | _ => false
+               end
+  | _ => false
+  end.
 
 Definition lookup_obs (p : path) (gs : list (path * option ctree)) : option (option ctree) :=
   match find (fun pg => if list_eq_dec string_dec (fst pg) p then true else false) gs with
